@@ -613,8 +613,198 @@ static void visit_call(const json& v)
     }
 }
 
+// ---- record mode: random in-order encoding of one message, logged for
+// ---- ViewTrace.tla
+static json split(const std::string& s)
+{
+    json a = json::array();
+    std::string cur;
+    for(char ch : s)
+    {
+        if(ch == '/')
+        {
+            a.push_back(cur);
+            cur.clear();
+        }
+        else
+            cur.push_back(ch);
+    }
+    if(!cur.empty())
+        a.push_back(cur);
+    return a;
+}
+static json ip1(const std::vector<int>& ip)
+{
+    json a = json::array();
+    for(int x : ip)
+        a.push_back(x + 1);
+    return a;
+}
+static json delta(const bytes& a, const bytes& b)
+{
+    json d = json::array();
+    std::size_t i = 0;
+    while(i < a.size())
+    {
+        if(a[i] == b[i])
+        {
+            i++;
+            continue;
+        }
+        std::size_t j = i;
+        bytes ch;
+        while(j < a.size() && a[j] != b[j])
+            ch.push_back(b[j++]);
+        d.push_back({{"off", i}, {"bytes", from_bytes(ch)}});
+        i = j;
+    }
+    return d;
+}
+struct recorder
+{
+    std::string msg;
+    region* reg;
+    char* p;
+    std::size_t cap;
+    rng* r;
+    std::ostream* out;
+    struct written
+    {
+        std::string lkey, leaf;
+        std::vector<int> ip;
+    };
+    std::vector<written> done;
+
+    std::vector<int> ipz(const std::vector<int>& ip)
+    {
+        auto v = ip;
+        v.push_back(0);
+        return v;
+    }
+    void maybe_get()
+    {
+        if(done.empty() || r->below(3) != 0)
+            return;
+        const auto& w = done[r->below(done.size())];
+        auto ipv = ipz(w.ip);
+        const bytes got = registry::get().leaves.at(w.lkey + ":" + w.leaf).get(p, cap, ipv.data());
+        *out << json({{"e", "get"}, {"level", split(w.lkey.substr(msg.size() + 1))},
+                      {"ip", ip1(w.ip)}, {"leaf", split(w.leaf)}, {"val", from_bytes(got)}})
+                    .dump()
+             << "\n";
+    }
+    void level(const std::vector<std::string>& path, const std::vector<int>& ip, int depth)
+    {
+        auto& R = registry::get();
+        std::string lp;
+        for(auto& x : path)
+            lp += (lp.empty() ? "" : "/") + x;
+        const std::string lkey = msg + ":" + lp;
+        const auto& st = R.structs.at(lkey);
+        auto ipv = ipz(ip);
+        for(const auto& leaf : st.leaves)
+        {
+            const auto& lo = R.leaves.at(lkey + ":" + leaf);
+            bytes val = lo.get(p, cap, ipv.data());
+            for(auto& b : val)
+                b = static_cast<std::uint8_t>(r->below(4) == 0 ? (r->below(2) ? 0 : 255) : r->next());
+            const bytes before = reg->dump();
+            lo.set(p, cap, ipv.data(), val);
+            *out << json({{"e", "set"}, {"level", split(lp)}, {"ip", ip1(ip)},
+                          {"leaf", split(leaf)}, {"val", from_bytes(val)},
+                          {"delta", delta(before, reg->dump())}})
+                        .dump()
+                 << "\n";
+            done.push_back({lkey, leaf, ip});
+            maybe_get();
+        }
+        for(const auto& g : st.groups)
+        {
+            const auto& go = R.groups.at(lkey + ":" + g);
+            const std::uint64_t n = r->below(depth == 0 ? 5 : 3);
+            bytes before = reg->dump();
+            go.fill_header(p, cap, ipv.data(), n);
+            *out << json({{"e", "ghdr"}, {"level", split(lp)}, {"ip", ip1(ip)}, {"name", g},
+                          {"n", n}, {"delta", delta(before, reg->dump())}})
+                        .dump()
+                 << "\n";
+            auto cp = path;
+            cp.push_back(g);
+            for(std::uint64_t e = 0; e < n; e++)
+            {
+                auto cip = ip;
+                cip.push_back(static_cast<int>(e));
+                level(cp, cip, depth + 1);
+            }
+            *out << json({{"e", "gsize"}, {"level", split(lp)}, {"ip", ip1(ip)}, {"name", g},
+                          {"n", go.size(p, cap, ipv.data())},
+                          {"ret", go.size_bytes(p, cap, ipv.data())}})
+                        .dump()
+                 << "\n";
+        }
+        for(const auto& d : st.data)
+        {
+            const auto& dops = R.data.at(lkey + ":" + d);
+            bytes val(r->below(7));
+            for(auto& b : val)
+                b = static_cast<std::uint8_t>(r->next());
+            const bytes before = reg->dump();
+            dops.assign(p, cap, ipv.data(), val);
+            *out << json({{"e", "data"}, {"level", split(lp)}, {"ip", ip1(ip)}, {"name", d},
+                          {"val", from_bytes(val)}, {"delta", delta(before, reg->dump())}})
+                        .dump()
+                 << "\n";
+            maybe_get();
+        }
+    }
+};
+
+static int record_main(int argc, char** argv)
+{
+    // view_main record <schema> <msg> <seed> <episodes> <out>
+    g_schema = argv[2];
+    const std::string msg = argv[3];
+    rng r(std::stoull(argv[4]));
+    const int episodes = std::stoi(argv[5]);
+    std::ofstream out(argv[6]);
+    const std::size_t v0 = 8, total = 1600;
+    for(int e = 0; e < episodes; e++)
+    {
+        region reg(total, true);
+        bytes bg(total);
+        for(std::size_t i = 0; i < total; i++)
+            bg[i] = static_cast<std::uint8_t>(r.next());
+        reg.load(bg);
+        recorder rec{msg, &reg, reg.data() + v0, total - v0 - 8, &r, &out, {}};
+        out << json({{"e", "Reset"}, {"msg", msg}, {"buf", from_bytes(bg)}}).dump() << "\n";
+        std::string err = attempt(
+            [&]
+            {
+                const bytes before = reg.dump();
+                registry::get().messages.at(msg).fill_header(rec.p, rec.cap);
+                out << json({{"e", "mhdr"}, {"delta", delta(before, reg.dump())}}).dump() << "\n";
+                rec.level({}, {}, 0);
+                out << json({{"e", "size"},
+                             {"ret", registry::get().messages.at(msg).size_bytes(rec.p, rec.cap)}})
+                           .dump()
+                    << "\n";
+            });
+        if(!err.empty())
+        {
+            std::fprintf(stderr, "record: %s\n", err.c_str());
+            return 4;
+        }
+    }
+    return 0;
+}
+
 int main(int argc, char** argv)
 {
+    if(argc >= 7 && std::string(argv[1]) == "record")
+    {
+        install_handlers();
+        return record_main(argc, argv);
+    }
     install_handlers();
     if(argc >= 4 && std::string(argv[1]) == "replay")
     {
